@@ -149,21 +149,76 @@ Definition default_level : level := Error.
 
 (* ---------------------------------------------------------------- (3) sites *)
 
+(* Producers: the call whose error result reaches the log call.  The relay's and the classification
+   loop's read/write/deadline/close calls are only some of them: File() on the accepted socket,
+   SyscallConn/Control, net.FileConn, raw system calls on the descriptor, Accept, the dial of the
+   covert, GeoIP lookups ... all return errors, and what package net's OWN methods return is an
+   *net.OpError whose Source/Addr are the connection's endpoints. *)
+Inductive connop :=
+  | OpRead | OpWrite | OpClose    (* OpError{Source: local, Addr: remote} *)
+  | OpFile                        (* conn.File: dup of the descriptor; OpError{Op:"file", Source: local, Addr: remote} *)
+  | OpSet                         (* SetDeadline & co, SetLinger, SetNoDelay ...: OpError{Op:"set", Addr: LOCAL address only} *)
+  | OpRawControl.                 (* SyscallConn().Control/Read/Write: OpError{Op:"raw-control", Addr: LOCAL address only} *)
+Inductive conntype :=
+  | TcpConn      (* the concrete *net.TCPConn / *net.UDPConn of package net *)
+  | AnyConn.     (* a net.Conn interface value: possibly a transport's layered connection, any error *)
+Inductive producer :=
+  | PConn (t : conntype) (o : connop)   (* a method of the client connection *)
+  | PFileConn        (* net.FileConn / FilePacketConn of the duplicated descriptor: the file's NAME is "tcp:local->remote" *)
+  | PSyscall         (* a raw system call on a descriptor (getsockopt, fcntl, setsockopt): a bare syscall.Errno *)
+  | PAccept          (* listener Accept: an OpError whose only address is the listener's own *)
+  | PDialCovert      (* dial of the covert: the addresses are the covert's and the station's own *)
+  | PConnectClient   (* a connecting transport dialling the client *)
+  | PGeoIP           (* GeoIP lookup of the client address *)
+  | PTransport       (* WrapConnection of a transport: anything, including the connection's own read errors *)
+  | PProxyHeader     (* writing the PROXY header: write errors and address-parsing errors *)
+  | PReviewed        (* reviewed producers of address-free errors: configuration, key files, protobuf, zmq, redis ... *)
+  | PUnknown.        (* anything else *)
+
+Definition op_names_remote (o : connop) : bool :=
+  match o with OpRead | OpWrite | OpClose | OpFile => true | OpSet | OpRawControl => false end.
+
+(* the error values a producer can return (a superset of what the code can return, never a subset) *)
+Definition can_produce (p : producer) (e : eshape) : bool :=
+  match p with
+  | PConn TcpConn o =>
+      match e with
+      | EOp a i => Bool.eqb a (op_names_remote o) && negb (mentions i)   (* the cause below the OpError is net's/the kernel's *)
+      | Leaf LEOF => match o with OpRead => true | _ => false end          (* io.EOF is returned unwrapped *)
+      | Leaf (LErrno _) => match o with OpRawControl => true | _ => false end   (* SyscallConn on an invalid conn: EINVAL *)
+      | _ => false
+      end
+  | PFileConn => match e with EOp _ i => negb (mentions i) | _ => false end
+  | PSyscall => match e with Leaf (LErrno _) => true | _ => false end
+  | PAccept => match e with EOp false i => negb (mentions i) | _ => false end
+  | PDialCovert | PReviewed => negb (mentions e)
+  | PConn AnyConn _ | PConnectClient | PGeoIP | PTransport | PProxyHeader | PUnknown => true
+  end.
+
+(* address-free by construction: no value the producer can return mentions the client address *)
+Definition addr_free_producer (p : producer) : bool :=
+  match p with
+  | PConn TcpConn (OpSet | OpRawControl) | PSyscall | PAccept | PDialCovert | PReviewed => true
+  | _ => false
+  end.
+
+(* the value every other producer can return: "<op> tcp <local>-><remote>: <call>: too many open files" *)
+Definition leak_witness : eshape := EOp true (ESys (Leaf (LErrno 24))).
+
 Inductive arg :=
   | AConst          (* literal or a value that is not an address (counters, durations, names, phantom address) *)
   | ASanitised (v : variant)  (* an error that went through generalizeErr *)
-  | ARawErr         (* an error value as returned by the network stack / an unreviewed producer *)
+  | AErr (p : producer)       (* an error value as its producer returned it *)
   | AClientAddr     (* the client's / registrant's address *)
   | APlaceholder    (* the client address if LOG_CLIENT_IP is set, "_" otherwise *)
-  | ADigest         (* registration id / digest / tunnel statistics record *)
-  | AInternalErr.   (* an error from a reviewed producer of address-free errors *)
+  | ADigest.        (* registration id / digest / tunnel statistics record *)
 
 Record site := {
   s_file : N; s_line : N; s_level : level; s_args : list arg;
 }.
 
 Definition safe_arg (a : arg) : bool :=
-  match a with ARawErr | AClientAddr => false | _ => true end.
+  match a with AErr p => addr_free_producer p | AClientAddr => false | _ => true end.
 Definition safe_site (s : site) : bool :=
   negb (prints default_level (s_level s)) || forallb safe_arg (s_args s).
 
@@ -200,8 +255,7 @@ Definition render_arg (ev : env) (i : nat) (a : arg) : list tok :=
   match a with
   | AConst => words (const_of ev i)
   | ASanitised v => err_text (generalize v (err_of ev i))
-  | ARawErr => err_text (err_of ev i)
-  | AInternalErr => words (const_of ev i)
+  | AErr _ => err_text (err_of ev i)
   | AClientAddr => [TAddr]
   | APlaceholder => if log_client_ip ev then [TAddr] else [TWord 6]
   | ADigest => words (digest_of ev i)
@@ -212,6 +266,29 @@ Fixpoint render_args (ev : env) (i : nat) (l : list arg) : list tok :=
   | [] => []
   | a :: r => render_arg ev i a ++ render_args ev (S i) r
   end.
+
+(* an environment is consistent with a site when the error flowing into every raw error argument
+   is a value its producer can return *)
+Definition arg_ok (ev : env) (i : nat) (a : arg) : bool :=
+  match a with
+  | AErr p => match err_of ev i with Some e => can_produce p e | None => true end
+  | _ => true
+  end.
+Fixpoint args_ok (ev : env) (i : nat) (l : list arg) : bool :=
+  match l with
+  | [] => true
+  | a :: r => arg_ok ev i a && args_ok ev (S i) r
+  end.
+Definition env_ok (s : site) (ev : env) : bool := args_ok ev 0 (s_args s).
+
+(* the failing run of an unsafe site: every raw error argument whose producer is not address-free
+   receives [leak_witness]; client-address logging is off *)
+Definition wit_err (a : arg) : option eshape :=
+  match a with AErr p => if addr_free_producer p then None else Some leak_witness | _ => None end.
+Definition wit_env (s : site) : env :=
+  {| env_value := EVUnset;
+     err_of := fun i => match nth_error (s_args s) i with Some a => wit_err a | None => None end;
+     digest_of := fun _ => []; const_of := fun _ => [] |}.
 
 (* the line a site writes at log level [cfg] (nothing if the level gates it) *)
 Definition output (cfg : level) (s : site) (ev : env) : list tok :=
